@@ -1,10 +1,48 @@
+import Flatland.Run.C01
+import Flatland.Run.C02
+import Flatland.Run.C03
+import Flatland.Run.C04
 import Flatland.Run.C05
+import Flatland.Run.C06
+import Flatland.Run.C07
+import Flatland.Run.C08
+import Flatland.Run.C09
+import Flatland.Run.C10
+import Flatland.Run.C11
+import Flatland.Run.C12
+import Flatland.Run.C13
+import Flatland.Run.C14
+import Flatland.Run.C15
+import Flatland.Run.C16
+import Flatland.Run.C17
+import Flatland.Run.C18
+import Flatland.Run.C19
+import Flatland.Run.C20
 open Lean
 namespace Flatland.Run
 
 def dispatch (p : String) (j : Json) : Except String Json :=
   match p with
+  | "C01" => C01.run j
+  | "C02" => C02.run j
+  | "C03" => C03.run j
+  | "C04" => C04.run j
   | "C05" => C05.run j
+  | "C06" => C06.run j
+  | "C07" => C07.run j
+  | "C08" => C08.run j
+  | "C09" => C09.run j
+  | "C10" => C10.run j
+  | "C11" => C11.run j
+  | "C12" => C12.run j
+  | "C13" => C13.run j
+  | "C14" => C14.run j
+  | "C15" => C15.run j
+  | "C16" => C16.run j
+  | "C17" => C17.run j
+  | "C18" => C18.run j
+  | "C19" => C19.run j
+  | "C20" => C20.run j
   | _ => .error s!"no model runner for property {p}"
 
 end Flatland.Run
